@@ -11,7 +11,7 @@ META = {
                  "site the Producer logs, SetHex, NestDeep, MakeCycle, DropKeyword, SwapEntry) composed with the TLA+ Producer and "
                  "instantiated for every byte-level entry point; TLC generates the adversarial inputs in simulation mode and evaluates "
                  "the StrictReader on each (totality); guard models (spec/MC_Guards.tla: Prev loop, indirect-Length recursion, MAX_BRACKET, "
-                 "search_substring) model-checked for a variant, termination and refinement, and re-checked with the guard removed; every "
+                 "MAX_NESTING, search_substring) model-checked for a variant, termination and refinement, and re-checked with the guard removed; every "
                  "input runs in an isolated lopdf worker (panic, stack overflow, abort, hang, oversized allocation are data); TLC "
                  "(Trace_Adversary) judges each outcome against the resource bound and names violations",
     "text": "TLC lays out whole PDF files with the specification's Producer (all lexical freedoms, cross-reference tables and streams, "
@@ -37,8 +37,9 @@ META = {
 }
 
 ACTIONS = ["FlipByte", "Truncate", "SpliceToken", "SetNumber", "SetHex", "NestDeep", "MakeCycle", "DropKeyword", "SwapEntry"]
-GUARDS = ["prev", "len", "bracket", "search"]
-GUARD_ACTIONS = {"prev": ["StepPrevFirst", "StepPrevIter"], "len": ["StepLen"], "bracket": ["StepBracket"], "search": ["StepSearch"]}
+GUARDS = ["prev", "len", "bracket", "nest", "search"]
+GUARD_ACTIONS = {"prev": ["StepPrevFirst", "StepPrevIter"], "len": ["StepLen"], "bracket": ["StepBracket"], "nest": ["StepNest"],
+                 "search": ["StepSearch"]}
 GROUP = {"load": "file", "incload": "file"}
 MIB = 1 << 20
 
